@@ -1110,7 +1110,6 @@ func (c *Ctx) unreadOnlyAfterSuccessfulRead(unread *ssa.Function, unit string) b
 	return true
 }
 
-
 // allGuarded: every call of bufio.Reader.<op> inside methods of Stream is reached only under
 // streamType == want.
 func (c *Ctx) allGuarded(factsAt func(*ssa.BasicBlock) map[fact]bool, op string, want int64) bool {
